@@ -498,18 +498,13 @@ theorem digits_of_offset {xf : F64} {t : ℚ} (hx : HasVal xf t) (hg : OnGrid t)
 * either the quotient `x / 10^5` underflows to `−0` (`n = −1`, `−x/10^5 ≤ 2^(−1075)`): tile `0`, all digits `0`
   — the square just east/north of the position (a sliver of width `5·10^(−319)` m);
 * or the tile index is exact, the offset is `OffsetRel`, and the digits are `DigitRel` of that offset. -/
-theorem scaleCoord_spec (s : Bool) (m : ℕ) (e : ℤ) (hm : m < 2 ^ 53) (he1 : -1074 ≤ e) (he0 : e ≤ 0) (p : ℕ) (hp : p ≤ 11)
-    (hb : |(F64.fin s m e).val| ≤ 10 ^ 7) (n : ℤ)
-    (hn1 : (n:ℚ) ≤ (F64.fin s m e).val / 100000) (hn2 : (F64.fin s m e).val / 100000 < (n:ℚ) + 1) :
-    let x := F64.fin s m e
+theorem scaleCoord_spec_val {x : F64} {v : ℚ} (hx : HasVal x v) (hg : OnGrid v) (p : ℕ) (hp : p ≤ 11)
+    (hb : |v| ≤ 10 ^ 7) (n : ℤ) (hn1 : (n:ℚ) ≤ v / 100000) (hn2 : v / 100000 < (n:ℚ) + 1) :
     let sc := scaleCoord x p
-    (n = -1 ∧ -(x.val / 100000) ≤ (2:ℚ) ^ (-(1075:ℤ)) ∧ sc = ⟨0, 0, 0⟩) ∨
-    (sc.h = n ∧ ∃ t' : ℚ, OffsetRel x.val n t' ∧ 0 ≤ t' ∧ t' ≤ 100000 ∧
+    (n = -1 ∧ -(v / 100000) ≤ (2:ℚ) ^ (-(1075:ℤ)) ∧ sc = ⟨0, 0, 0⟩) ∨
+    (sc.h = n ∧ ∃ t' : ℚ, OffsetRel v n t' ∧ 0 ≤ t' ∧ t' ≤ 100000 ∧
       ∃ pv : ℚ, DigitRel t' p sc.i1 sc.i2 pv) := by
-  intro x sc
-  set v := (F64.fin s m e).val with hv
-  have hx : HasVal x v := hasVal_fin s m e
-  have hg : OnGrid v := onGrid_fin s m e hm he1 he0
+  intro sc
   have hbb := abs_le.mp hb
   have hnb : |n| ≤ 1000 := by
     have a1 : (-101:ℚ) < (n:ℚ) := by
@@ -650,6 +645,17 @@ theorem scaleCoord_spec (s : Bool) (m : ℕ) (e : ℤ) (hm : m < 2 ^ 53) (he1 : 
     by_cases h5 : p > 5
     · rw [if_pos h5, z2]; norm_num
     · rw [if_neg h5]; norm_num
+
+
+theorem scaleCoord_spec (s : Bool) (m : ℕ) (e : ℤ) (hm : m < 2 ^ 53) (he1 : -1074 ≤ e) (he0 : e ≤ 0) (p : ℕ) (hp : p ≤ 11)
+    (hb : |(F64.fin s m e).val| ≤ 10 ^ 7) (n : ℤ)
+    (hn1 : (n:ℚ) ≤ (F64.fin s m e).val / 100000) (hn2 : (F64.fin s m e).val / 100000 < (n:ℚ) + 1) :
+    let x := F64.fin s m e
+    let sc := scaleCoord x p
+    (n = -1 ∧ -(x.val / 100000) ≤ (2:ℚ) ^ (-(1075:ℤ)) ∧ sc = ⟨0, 0, 0⟩) ∨
+    (sc.h = n ∧ ∃ t' : ℚ, OffsetRel x.val n t' ∧ 0 ≤ t' ∧ t' ≤ 100000 ∧
+      ∃ pv : ℚ, DigitRel t' p sc.i1 sc.i2 pv) :=
+  scaleCoord_spec_val (hasVal_fin s m e) (onGrid_fin s m e hm he1 he0) p hp hb n hn1 hn2
 
 /-- `x + 10^5` rounds to `10^5` for `−2^(−37) ≤ x < 0` (half an ulp of `10^5`; the tie goes to the even neighbour `10^5`) -/
 theorem isRN_wrap (v : ℚ) (h1 : -(2:ℚ) ^ (-(37:ℤ)) ≤ v) (h2 : v < 0) : IsRN 53 (-1074) (v + 100000) 100000 where
